@@ -37,6 +37,7 @@ def _expand(hists):
     nrej = 0
     outcomes = set()
     local_seen = set()
+    dispose = getattr(system, "dispose", None)
     for hist in hists:
         base = _replay(system, hist)
         ops = system.ops(base)
@@ -53,12 +54,18 @@ def _expand(hists):
             if problems:
                 for sig, msg in problems:
                     viols.append((sig, msg, hist + [op]))
+                if dispose:
+                    dispose(st)
                 continue            # never expand beyond a violating transition
             k = digest(system.canon(st))
+            if dispose:
+                dispose(st)
             if k in local_seen:
                 continue
             local_seen.add(k)
             succ.append((k, hist + [op]))
+        if dispose:
+            dispose(base)
     return succ, viols, ntrans, nrej, outcomes
 
 
@@ -68,6 +75,8 @@ def bfs(system, depth, seed=0, max_states=None, check_snapshot_depth=2, label=""
     _SYSTEM, _OPTS = system, {"seed": seed}
     root = system.fresh()
     seen = {digest(system.canon(root))}
+    if hasattr(system, "dispose"):
+        system.dispose(root)
     frontier = [[]]
     stats = {"states": 1, "transitions": 0, "rejected_calls": 0, "max_depth": 0,
              "frontier_exhausted": False, "caps_hit": [], "per_level": []}
